@@ -147,6 +147,10 @@ def rational_quadratic_spline(
         assert (discriminant >= 0).all()
 
         root = (2 * c) / (-b - torch.sqrt(discriminant))
+        # The root is the relative position inside the bin. The discriminant suffers from
+        # cancellation when the bin's slope is much larger than its boundary derivatives, which can
+        # push the root slightly outside [0, 1] and make the derivative below negative (NaN log).
+        root = torch.clamp(root, 0, 1)
         # root = (- b + torch.sqrt(discriminant)) / (2 * a)
         outputs = root * input_bin_widths + input_cumwidths
         # Rounding can push the result an ulp outside the interval, which forward() would reject.
